@@ -638,9 +638,9 @@ def plan(ctx, check):
         p.append(dict(kind="mc", label="mc-xmac-secondary-d5", shape=0, mode="secondary", depth=5, kw=xmac, every=40, fail_every=20))
         p.append(dict(kind="mc", label="mc-lower-nice-d5", shape=2, mode="nice", depth=5, kw=low, every=40, fail_every=20))
         for mode in MODES:
-            p.append(dict(kind="sim", label="sim-full-%s-d14" % mode, shape=0, mode=mode, depth=14, num=1500, kw=dict(full, ncid=3)))
-        p.append(dict(kind="rand", n=1500, length=40))
-        p.append(dict(kind="life", n=3000, length=40))
+            p.append(dict(kind="sim", label="sim-full-%s-d14" % mode, shape=0, mode=mode, depth=14, num=800, kw=dict(full, ncid=3)))
+        p.append(dict(kind="rand", n=1200, length=40))
+        p.append(dict(kind="life", n=2400, length=40))
     return p
 
 
